@@ -188,6 +188,19 @@ def corpus(ctx):
         ctx.count("missed_reference_with_the_largest_label")
         for mt in (E.naive("IOU", (1, 2)), E.merge("IOU", (1, 2))):
             pipeline_case(ctx, p, r, E.mk_cfg("UNMATCHED", ["IOU", "DSC"], matcher=mt), "corpus.missed-large-reference")
+    # three to five congruent instance pairs (all per-instance values equal: 4/5, 3/5, 2/3, 5/7): the standard deviation of equal values is zero,
+    # which a one-pass formula (mean of squares minus square of the mean) misses by cancellation
+    for inter, union_extra in ((4, 1), (3, 2), (2, 1), (5, 2)):
+        for n in (3, 4, 5):
+            w = inter + union_extra
+            ref = np.zeros((1, n * (w + 2)), np.uint8)
+            pred = np.zeros((1, n * (w + 2)), np.uint8)
+            for k in range(n):
+                ref[0, k * (w + 2):k * (w + 2) + w] = k + 1
+                pred[0, k * (w + 2):k * (w + 2) + inter] = k + 1          # IoU = Dice-related value inter / w for every instance
+            ctx.count("all_per_instance_values_equal")
+            pipeline_case(ctx, pred, ref, E.mk_cfg("MATCHED", ["IOU", "DSC", "RVD", "ASSD"]), "corpus.equal-values")
+            pipeline_case(ctx, pred, ref, E.mk_cfg("UNMATCHED", ["IOU", "DSC"], matcher=E.naive("IOU", (1, 4))), "corpus.equal-values")
     # unmatched input, exactly one side empty (fp/fn must not be exchanged)
     e = np.zeros((4, 4), np.uint8)
     f = e.copy()
